@@ -16,8 +16,8 @@ struct GPoly {                             // the polygon as handed to the libra
     int shape = 0, loc = 0;                // generator arms (classification)
 };
 static const char *SHAPE_NAME[] = {"convex-ish", "concave-star", "needle", "tiny(<1 cell)", "large", "triangle/quad", "wide-band(>180deg)", "comb(thin slits)"};
-static const char *LOC_NAME[] = {"uniform", "pentagon", "antimeridian", "high-latitude", "icosahedron-edge", "southern", "coarse-ancestor-corner", "ancestor-bbox-extreme-descendant", "polar-cap(any distance from a pole)"};
-enum { NSHAPE = 8, NLOC = 9 };
+static const char *LOC_NAME[] = {"uniform", "pentagon", "antimeridian", "high-latitude", "icosahedron-edge", "southern", "coarse-ancestor-corner", "ancestor-bbox-extreme-descendant", "polar-cap(any distance from a pole)", "on-a-cell-edge(any offset)"};
+enum { NSHAPE = 8, NLOC = 10 };
 
 inline std::string serLoop(const std::vector<LatLng> &l) {
     std::string s;
@@ -177,7 +177,7 @@ inline int inPoly(const QPoly &q, P2 p, Q margin) {
 inline GPoly drawPoly(int res, int maxCells, bool allowHoles, int forceShape = -1, int forceLoc = -1, bool allowPolarCap = false) {
     using namespace vh;
     GPoly g;
-    g.loc = forceLoc >= 0 ? forceLoc : rpick({4, 3, 3, 2, 2, 2, 3, (res >= 1 ? 3 : 0), (allowPolarCap ? 2 : 0)});
+    g.loc = forceLoc >= 0 ? forceLoc : rpick({4, 3, 3, 2, 2, 2, 3, (res >= 1 ? 3 : 0), (allowPolarCap ? 2 : 0), (allowPolarCap ? 2 : 0)});
     int forcedShape = -1;
     LatLng c;
     switch (g.loc) {
@@ -217,6 +217,37 @@ inline GPoly drawPoly(int res, int maxCells, bool allowHoles, int forceShape = -
             if (rpick({2, 1}) == 0) forcedShape = rpick({1, 1}) ? 3 : 5;  // tiny / triangle around that cell
             break;
         }
+        case 9: {  // on an edge of a cell of the fill resolution (or a coarser one): between the great-circle edge and its lat/lng chord, or at any
+                   // offset (1e-6 .. 0.3 cell widths) from it; usually with a tiny polygon — where spherical and planar containment differ
+            int cr = std::max(0, res - rpick({3, 1, 1}));
+            H3Index cell = gen::cellRes(cr, {3, 2, 2, 2, 1, 1, 2, 1, 1}).h;
+            CellBoundary cb;
+            LatLng cc;
+            if (cellToBoundary(cell, &cb) || cellToLatLng(cell, &cc) || cb.numVerts < 3) { c = gen::pointUniform(); break; }
+            int i = ri(0, cb.numVerts - 1), j = (i + 1) % cb.numVerts;
+            double t = rpick({1, 1}) ? 0.5 : runit();
+            LatLng a = cb.verts[i], b = cb.verts[j];
+            double dl = b.lng - a.lng;
+            if (dl > gen::PI) dl -= 2 * gen::PI;
+            if (dl < -gen::PI) dl += 2 * gen::PI;
+            LatLng chord = {a.lat + t * (b.lat - a.lat), a.lng + t * dl};                       // on the lat/lng chord
+            LatLng arc = gen::toLL(gen::lerpN(gen::toV(a.lat, a.lng), gen::toV(b.lat, b.lng), t));  // on the great-circle edge
+            double u = rpick({2, 1, 1}) == 0 ? runit() : (double)ri(0, 1);                        // between the two, or on one of them
+            c.lat = chord.lat + u * (arc.lat - chord.lat);
+            double dd = arc.lng - chord.lng;
+            if (dd > gen::PI) dd -= 2 * gen::PI;
+            if (dd < -gen::PI) dd += 2 * gen::PI;
+            c.lng = chord.lng + u * dd;
+            if (rpick({1, 1})) {  // pushed towards / away from the cell centre by any scale
+                double off = gen::logU(1e-6, 0.3) * gen::cellWidth(cr) * (ri(0, 1) ? 1 : -1);
+                double az = std::atan2((cc.lng - c.lng) * std::cos(c.lat), cc.lat - c.lat);
+                c = gen::offset(c, off, az);
+            }
+            if (c.lng > gen::PI) c.lng -= 2 * gen::PI;
+            if (c.lng < -gen::PI) c.lng += 2 * gen::PI;
+            if (rpick({3, 1}) == 0) forcedShape = 3;
+            break;
+        }
         case 8: {  // next to a pole, at any distance from it (1e-3 .. 0.09 rad, log-uniform); the polygon never contains the pole
             c.lat = (ri(0, 1) ? 1 : -1) * (gen::PI / 2 - gen::logU(1e-3, 0.09));
             c.lng = (2 * runit() - 1) * gen::PI;
@@ -225,6 +256,7 @@ inline GPoly drawPoly(int res, int maxCells, bool allowHoles, int forceShape = -
         default: c = gen::pointUniform(); break;
     }
     if (g.loc != 8 && fabs(c.lat) > 1.48) c.lat = c.lat > 0 ? 1.48 : -1.48;
+    if (g.loc == 9 && forcedShape == 3) forceShape = -1;  // the edge arm chooses its own (tiny) shape
     g.clat = c.lat;
     g.clng = c.lng;
     g.shape = forceShape >= 0 ? forceShape : forcedShape >= 0 ? forcedShape : rpick({3, 3, 3, 2, 2, 1, (res <= 3 && g.loc != 8 ? 2 : 0), 2});
@@ -250,7 +282,7 @@ inline GPoly drawPoly(int res, int maxCells, bool allowHoles, int forceShape = -
     double w = gen::cellWidth(res);
     double Rcells;
     switch (g.shape) {
-        case 3: Rcells = 0.05 + runit() * 0.4; break;
+        case 3: Rcells = rpick({1, 1}) ? 0.05 + runit() * 0.4 : gen::logU(3e-3, 0.45); break;  // tiny; half of the time at any scale down to 0.3 % of a cell
         case 4: Rcells = std::sqrt((double)maxCells) * (0.3 + 0.3 * runit()); break;
         case 2: Rcells = 1.5 + runit() * 9; break;
         case 7: Rcells = 2 + runit() * std::min(9.0, std::sqrt((double)maxCells) * 0.3); break;
